@@ -135,6 +135,34 @@ theorem secArgs_dims (ds : List (Dir K × BSel)) (ps : List (Side × K)) :
     | lo => simp only [secArgs, idxOf, dimsOf, List.map_cons, freeDims]; rw [← dimsOf, ih]
     | hi => simp only [secArgs, idxOf, dimsOf, List.map_cons, freeDims]; rw [← dimsOf, ih]
 
+theorem sectionSel_boundary_slice (o : Obj K) (ds : List (Dir K × BSel)) (nc : ℕ)
+    (hshape : o.cps.shape = dimsOf ds ++ [nc]) (hp : FixedPos ds) (unwrap : Bool) :
+      (Obj.sliceSec o.cps (idxOf ds)).shape = freeDims (idxOf ds) (dimsOf ds) ++ [nc] ∧
+      (∀ is c, InRange is (freeDims (idxOf ds) (dimsOf ds)) → c < nc →
+        (Obj.sliceSec o.cps (idxOf ds)).getIdx (is ++ [c]) = secNet ds (fun full => o.cps.getIdx (full ++ [c])) is) ∧
+      o.sectionSel (selOf ds) unwrap =
+        .ok (if !(Obj.freeBases o.bases.toList (selOf ds)).isEmpty ∨ !unwrap then
+            .obj (Obj.className (Obj.freeBases o.bases.toList (selOf ds)).length)
+              { bases := (Obj.freeBases o.bases.toList (selOf ds)).toArray, cps := Obj.sliceSec o.cps (idxOf ds),
+                rational := o.rational }
+          else .point (Obj.sliceSec o.cps (idxOf ds)).data) := by
+  obtain ⟨h1, h2⟩ := sliceSecFrom_spec (idxOf ds) [] (dimsOf ds) [nc] o.cps (by simpa using hshape)
+    (selValid_idxOf ds hp)
+  refine ⟨by simpa [Obj.sliceSec] using h1, ?_, ?_⟩
+  · intro is c his hc
+    have := h2 [] is [c] List.Forall₂.nil his (List.Forall₂.cons hc List.Forall₂.nil)
+    rw [secNet_eq_fill ds _ is his]
+    simpa [Obj.sliceSec] using this
+  · have hne : (Obj.sliceSec o.cps (idxOf ds)).shape.isEmpty = false := by
+      have : (Obj.sliceSec o.cps (idxOf ds)).shape = freeDims (idxOf ds) (dimsOf ds) ++ [nc] := by
+        simpa [Obj.sliceSec] using h1
+      rw [this]
+      simp
+    unfold Obj.sectionSel
+    rw [hshape, resolveSel_idxOf ds hp [nc]]
+    simp only [hne]
+    split_ifs <;> first | rfl | simp_all
+
 /-- **The model's `section` returns the section net.**  For an object whose control net has shape
     `dims ++ [nc]` and a boundary selector per direction: `sectionSel` succeeds; the returned control
     net `cps'` has the free axes (then the component axis) and its entries are `secNet` of the
@@ -151,22 +179,7 @@ theorem sectionSel_boundary (o : Obj K) (ds : List (Dir K × BSel)) (nc : ℕ)
             .obj (Obj.className (Obj.freeBases o.bases.toList (selOf ds)).length)
               { bases := (Obj.freeBases o.bases.toList (selOf ds)).toArray, cps := cps',
                 rational := o.rational }
-          else .point cps'.data) := by
-  obtain ⟨h1, h2⟩ := sliceSecFrom_spec (idxOf ds) [] (dimsOf ds) [nc] o.cps (by simpa using hshape)
-    (selValid_idxOf ds hp)
-  refine ⟨Obj.sliceSec o.cps (idxOf ds), by simpa [Obj.sliceSec] using h1, ?_, ?_⟩
-  · intro is c his hc
-    have := h2 [] is [c] List.Forall₂.nil his (List.Forall₂.cons hc List.Forall₂.nil)
-    rw [secNet_eq_fill ds _ is his]
-    simpa [Obj.sliceSec] using this
-  · have hne : (Obj.sliceSec o.cps (idxOf ds)).shape.isEmpty = false := by
-      have : (Obj.sliceSec o.cps (idxOf ds)).shape = freeDims (idxOf ds) (dimsOf ds) ++ [nc] := by
-        simpa [Obj.sliceSec] using h1
-      rw [this]
-      simp
-    unfold Obj.sectionSel
-    rw [hshape, resolveSel_idxOf ds hp [nc]]
-    simp only [hne]
-    split_ifs <;> first | rfl | simp_all
+          else .point cps'.data) :=
+  ⟨Obj.sliceSec o.cps (idxOf ds), sectionSel_boundary_slice o ds nc hshape hp unwrap⟩
 
 end Splipy
